@@ -178,7 +178,11 @@ def explore_after_uninstall(label: str, cfg: Dict[str, Any], rng: random.Random,
         events, meta = [], []
         cur = numbering.num(rq.state_digest(sim))
         start = cur
-        seq = [(["network", "node", h, "software_manager", "application", "uninstall", a], "uninstall")]
+        # first: the application route asked to uninstall SERVICES of that node (no application of that name exists)
+        svc_names = sorted(sw.name for sw in sim.network.get_node_by_hostname(h).services.values())
+        seq = [(["network", "node", h, "software_manager", "application", "uninstall", sname], "uninstall-service-as-application")
+               for sname in rng.sample(svc_names, min(2, len(svc_names)))]
+        seq += [(["network", "node", h, "software_manager", "application", "uninstall", a], "uninstall")]
         for v in sorted(verbs):
             tail = list(v)
             if a == "nmap" and v and v[0] in ("ping_scan", "port_scan", "network_service_recon"):
